@@ -133,7 +133,7 @@ func runC11(c *core.Case) *core.Result {
 		w.idle()
 		dts = append(dts, d)
 	}
-	mode := c.Index % 4 // 0,1: gate one update at a database command; 2: free-running back to back; 3: one update starts late (out of order)
+	mode := (c.Index / 4) % 4 // 0,1: gate one update at a database command; 2: free-running back to back; 3: one update starts late (out of order)
 	// gate points are named by kind (read / write) and collection, not by the command a
 	// particular version of the repository layer uses there
 	gi := r.Intn(4)
